@@ -575,8 +575,8 @@ func tally(check string, bad []string) {
 }
 
 func legWellFormed() {
-	n := txk.Scaled(r.Pick(24000, 450000))
-	nRandom := txk.Scaled(r.Pick(6000, 150000))
+	n := txk.Scaled(r.Pick(24000, 400000))
+	nRandom := txk.Scaled(r.Pick(6000, 120000))
 	vf.Parallel(n, 16, func(i int) {
 		g := r.Rand("wf", i)
 		c := gen(g)
@@ -677,7 +677,7 @@ type childOut struct {
 
 func legDecode() {
 	batches := r.Pick(8, 32)
-	per := txk.Scaled(r.Pick(25000, 250000))
+	per := txk.Scaled(r.Pick(25000, 125000))
 	dir := vf.TempDir("c09")
 	defer os.RemoveAll(dir)
 	vf.Parallel(batches, 8, func(b int) {
